@@ -333,6 +333,10 @@ def render_hist(h, pred, L, where, extra, hi, want_snap=True, upto=None):
             b = 0
             if want_snap:
                 L.append('* snapshot 0'); b = len(L)
+                if h.np > 1:
+                    # the snapshot is barrier-then-read on rank 0: keep the other ranks from running ahead into the
+                    # next (possibly writing) call while rank 0 still reads
+                    L.append('* barrier')
             extra[(hi, ci)] = (a, b)
 
 
@@ -557,20 +561,22 @@ def run(ctx):
     # ---- histories
     starts = [(s, r) for s in ('created', 'rw', 'ro') for r in (1, 0)]
     depth = 4 if thorough else 3
-    fams = [('enum', list(enum_descs(depth, starts, 0, 'enum')), 1),
+    # full depth from the starts with a record variable, one less from those without (they differ only in sync_numrecs / fill_var_rec)
+    fams = [('enum', list(enum_descs(depth, [x for x in starts if x[1]], 0, 'enum')) +
+                     list(enum_descs(depth - 1, [x for x in starts if not x[1]], 0, 'enum')), 1),
             ('safe', list(enum_descs(3 if thorough else 2, starts, 1, 'safe')), 1),
             ('cov', list(cov_descs(reach)), 1)]
     two = list(enum_descs(2, starts, 0, 'np2', 2))
-    if not thorough:
-        two = [x for i, x in enumerate(two) if i % 7 == (ctx.seed % 7)]
+    stride = 7 if thorough else 45
+    two = [x for i, x in enumerate(two) if i % stride == (ctx.seed % stride)]
     fams.append(('np2', two, 2))
     batches = []
     for fam, ds, np_ in fams:
-        per = 400 if fam == 'cov' else (40 if np_ == 2 else 60)
+        per = 400 if fam == 'cov' else (8 if np_ == 2 else 60)
         for i in range(0, len(ds), per):
             batches.append((len(batches), ds[i:i + per], impl, model, wd))
     ctx.cov['rule'] = ('histories = start (created | opened rw | opened ro, with/without record variable; schema set-up spliced in) + every '
-                       'sequence of <= %d letters of the %d-letter alphabet of mode-changing / core-changing calls (close and abort terminal) + '
+                       'sequence of <= %d letters (one less for the starts without record variable) of the %d-letter alphabet of mode-changing / core-changing calls (close and abort terminal) + '
                        'all %d probes (rotated order) + other-handle create/open + close + calls on the closed id; after every call the mode '
                        're-probe, inq dump, inq_nreqs and file snapshot; family cov = witness path of every proved-reachable core x every call; '
                        'family safe = PNETCDF_SAFE_MODE=1; family np2 = 2 ranks. A case = one history; non-trivial = it contains a rejected call '
